@@ -5,7 +5,7 @@ the Python values <=> equality of the integers.  `Shape.cast` is an uninterprete
 shapes).  `other` is either an instance of the same signature class or some foreign object.
 """
 import z3
-from vf.pyvc.engine import Exec, Path, SymObj, Opaque, find_def
+from vf.pyvc.engine import Exec, Path, SymObj, Opaque, find_def, Unsupported
 from vf.pyvc.driver import FnVerifier
 
 ShapeCast = z3.Function("ShapeCast", z3.IntSort(), z3.IntSort())
@@ -61,3 +61,58 @@ def verify_eq(file, qual, spelling, fields, cast_fields):
 
 def all_verifiers():
     return [lambda s=s: verify_eq(*s) for s in SIGS]
+
+
+# ---- Interface.memory_map setters (geometry of the map is tied to the geometry of the bus) ---------------------------------
+def verify_memory_map_setters():
+    from vf.pyvc.engine import pow2, POW2_AXIOMS, NONE
+    fvs = []
+    for file, qual, kind in (("amaranth_soc/csr/bus.py", "Interface", "csr"), ("amaranth_soc/wishbone/bus.py", "Interface", "wishbone")):
+        fv = FnVerifier(f"{kind}.bus.Interface.memory_map.setter", POW2_AXIOMS)
+        fn = find_def(file, qual + ".memory_map")          # the last definition with that name is the setter
+        if len(fn.args.args) != 2:
+            raise Unsupported(f"{file}: memory_map setter not found")
+        for case in ("map", "foreign"):
+            ex = Exec(file, qual, axioms=POW2_AXIOMS)
+            ex.class_files = {qual: file, "MemoryMap": "amaranth_soc/memory.py", "Signature": file}
+            ex.isinstance_hook = lambda v, ty, node: (z3.BoolVal(isinstance(v, SymObj) and v.cls == "MemoryMap") if ty == "MemoryMap" else None)
+            q = Path()
+            self_ = SymObj(qual, "self")
+            sig = SymObj("Signature", "self.signature")
+            aw, dw, g = z3.Ints("bus_aw bus_dw bus_g")
+            sig.init_fields.update({"_addr_width": aw, "_data_width": dw, "_granularity": g})
+            self_.init_fields["signature"] = sig
+            self_.init_fields["_memory_map"] = NONE
+            k = z3.Int("granularity_bits")
+            # invariants of the signature (checked by its constructor): widths in {8,16,32,64}, granularity <= data width
+            if kind == "wishbone":
+                q.assume(z3.And(aw >= 0, z3.Or(*[dw == x for x in (8, 16, 32, 64)]), z3.Or(*[g == x for x in (8, 16, 32, 64)]), g <= dw,
+                                k >= 0, k <= 3, pow2(k) * g == dw))
+                ex.contracts["exact_log2"] = lambda ex_, recv, a, kw, q_, n, k=k, dw=dw, g=g: [(k, q_)]   # exact_log2(dw // g): ghost k with 2**k * g == dw
+            else:
+                q.assume(z3.And(aw > 0, dw > 0))
+            if case == "map":
+                mm = SymObj("MemoryMap", "memory_map")
+                maw, mdw = z3.Ints("map_aw map_dw")
+                mm.init_fields.update({"_addr_width": maw, "_data_width": mdw})
+                q.assume(z3.And(maw > 0, mdw > 0))
+            else:
+                mm = Opaque("not a MemoryMap")
+            q.env.update({"self": self_, "memory_map": mm})
+            outs = ex.run(fn, q)
+            fv.paths += len(outs)
+            if case == "map":
+                ok = z3.And(maw == aw, mdw == dw) if kind == "csr" else z3.And(mdw == g, maw == z3.If(aw + k >= 1, aw + k, 1))
+            for n_, o in enumerate(outs):
+                p = o.path
+                lab = f"{case}:path{n_}"
+                if o.kind == "raise":
+                    fv.add("raises-only-TypeError-or-ValueError", lab, p.pc, z3.BoolVal(o.exc in ("TypeError", "ValueError")))
+                    fv.add("refuses-only-a-mismatching-map", lab, p.pc, z3.Not(ok) if case == "map" else z3.BoolVal(o.exc == "TypeError"))
+                    fv.add("refusal-stores-nothing", lab, p.pc, z3.BoolVal((id(self_), "_memory_map") not in p.heap))
+                else:
+                    fv.add("accepts-only-a-map-with-the-bus-geometry", lab, p.pc, ok if case == "map" else z3.BoolVal(False))
+                    fv.add("stores-the-map", lab, p.pc, z3.BoolVal(p.heap.get((id(self_), "_memory_map")) is mm))
+            fv.add_engine_obligations(ex)
+        fvs.append(fv)
+    return fvs
